@@ -1,19 +1,21 @@
 import QrlModel.Proofs.BdsLabel10
-import QrlModel.Proofs.Wots
-import QrlModel.Props.C08
+import QrlModel.Proofs.XmssE2E
 /-! # C01 — every XMSS signature over the key's whole life verifies
 
-Ingredients proved here (see DESIGN.md §7 C01 for how they compose, and `C01_partial` below for what is
-still missing for the end-to-end statement):
+`C01_height`: for a height `h` whose label-level whole-life check holds, **for every seed, every hash
+function with 32-byte output, every message and every history of Sign / forward SetIndex calls**, the
+signature the key returns verifies under its public key. The label-level check is a kernel evaluation
+(`decide +kernel`) of the node-value-independent traversal model over all 2^h indices; it is proved here for
+h ∈ {4, 6, 8, 10} (`C01_h4 … C01_h10`). The remaining supported heights 12..30 are `C01_partial`: every lemma
+used is height-generic except that one evaluation; for them the property rests on the correspondence run
+(label-mode state dumps of the real traversal compared index by index with the Lean label model).
 
-* the traversal keeps the true authentication path at every index of a height — kernel evaluation of the
-  label model for h ∈ {4, 6, 8, 10} (every seed and hash function at once: the traversal's control flow
-  never looks at node values);
-* WOTS: the verifier's chain completion reproduces the key-generation public key, for every hash function;
-* the state at an index does not depend on the history that led there (C08 `history_state`), so the
-  per-index statement covers every sequence of Sign / forward SetIndex calls. -/
+Ingredients: `Proofs/BdsRel` (the traversal preserves a logical relation between labels and true tree nodes,
+so the label theorem transfers to every seed/hash), `Proofs/Wots` (chain completion), `Proofs/AuthPath`
+(climbing the true sibling path reaches the root), `Props/C04.accept_iff` (the verifier's decision),
+`Props/C08.history_state` (the state at an index does not depend on the history). -/
 namespace Qrl.Xmss.C01
-open Qrl.BdsLabel Qrl.Bds
+open Qrl.BdsLabel Qrl.Bds Qrl.BdsRel Qrl.Xmss.C02 Qrl.Xmss.C08
 
 /-- for height `h`, at every index `i < 2^h`, after `i` traversal steps from key generation the stored
 authentication path is the sibling path of leaf `i`, and key generation returns the tree root -/
@@ -26,22 +28,59 @@ theorem traversal_h6 : TraversalCorrect 6 := checkAll_sound 6 bds_h6
 theorem traversal_h8 : TraversalCorrect 8 := checkAll_sound 8 bds_h8
 theorem traversal_h10 : TraversalCorrect 10 := checkAll_sound 10 bds_h10
 
-/-- no `bad` label (a hash applied to anything but the two children its address names) occurs in a correct path -/
-theorem trueAuth_no_bad (h i : Nat) : Lbl.bad ∉ trueAuth h i := by
-  simp [trueAuth]
+section
+variable (hashOf : Nat → Bytes → Bytes) (shake256 : Bytes → Nat → Bytes)
 
-/-- WOTS part of `Verify(Sign(m))`: for every hash function, seed, index and 32-byte digest -/
+/-- **the property for one height `h`**: `k0` is the key `NewXMSSFromSeed` / `NewXMSSFromExtendedSeed` builds
+(`initializeTree`) from any seed and any descriptor of that height with a supported hash function; `ops` is
+any history of Sign / SetIndex(uint32) calls; if the key is not exhausted afterwards, signing any message
+succeeds and the signature verifies under the key's public key. -/
+def C01Statement (h : Nat) : Prop :=
+  ∀ (_ : ∀ hf x, (hashOf hf x).length = 32) (seed : Bytes) (_ : (shake256 seed 96).length = 96)
+    (d : Desc) (_ : d.height = h) (_ : d.sigType = 0) (_ : supportedHash d.hashFn = true) (_ : d.addrFmt < 16)
+    (k0 : Key) (_ : initializeTree hashOf shake256 d seed = .ok k0)
+    (ops : List Op) (_ : ∀ op ∈ ops, opOK op) (msg : Bytes) (_ : (specRun h 0 ops).1 < 2 ^ h),
+    ∃ sig k', sign hashOf (run hashOf k0 ops).1 msg = .ok (k', sig) ∧ verify hashOf msg sig k0.pk = .ok true
+
+theorem C01_height (h : Nat) (hc : checkAll h = true) (h4 : 4 ≤ h) (heven : h % 2 = 0) (h30 : h ≤ 30) :
+    C01Statement hashOf shake256 h := by
+  intro hlen seed hs d hh hst hhf haf k0 hk ops hops msg hleft
+  -- the root is a hash output
+  have hrootlen : ((treeHashSetup (opsFor hashOf d.hashFn ((shake256 seed 96).take 32) (((shake256 seed 96).drop 64).take 32)) d.height).2).length = 32 := by
+    have := (traversal_transfer (treeOps (hashOf d.hashFn) (((shake256 seed 96).drop 64).take 32)
+      (fun j => genLeafWOTS (hashOf d.hashFn) wp16 ((shake256 seed 96).take 32) (((shake256 seed 96).drop 64).take 32) j)) h hc).1
+    rw [hh]
+    show (treeHashSetup (treeOps _ _ _) h).2.length = 32
+    rw [this]
+    exact tree_len _ (hlen _) _ _ (fun j => genLeafWOTS_len _ (hlen _) _ _ _ _) _ _
+  have hg := generated_of_init hashOf shake256 d seed k0 hs hk hrootlen
+  have hk0h : k0.h = h := by rw [hg.h, hh]
+  have hfresh : keyAt hashOf k0 0 = k0 := fresh_is_keyAt0 hashOf k0 hg.skz
+  have hhist := history_state hashOf hlen k0 (by omega) (by omega) ops 0 (Nat.zero_le _) hops
+  rw [hfresh, hk0h] at hhist
+  rw [hhist]
+  exact verify_sign_at hashOf h hc hlen k0 d (shake256 seed 96) hs hg hh h4 heven h30 hst hhf haf _ hleft msg
+
+theorem C01_h4 : C01Statement hashOf shake256 4 := C01_height hashOf shake256 4 bds_h4 (by decide) (by decide) (by decide)
+theorem C01_h6 : C01Statement hashOf shake256 6 := C01_height hashOf shake256 6 bds_h6 (by decide) (by decide) (by decide)
+theorem C01_h8 : C01Statement hashOf shake256 8 := C01_height hashOf shake256 8 bds_h8 (by decide) (by decide) (by decide)
+theorem C01_h10 : C01Statement hashOf shake256 10 := C01_height hashOf shake256 10 bds_h10 (by decide) (by decide) (by decide)
+
+/-- the full property (all supported heights) reduces to the label-level check of each height; proved above
+for 4..10, open for 12..30 (`C01_partial`) -/
+theorem C01_partial (h : Nat) (h4 : 4 ≤ h) (heven : h % 2 = 0) (h30 : h ≤ 30) (hc : checkAll h = true) :
+    C01Statement hashOf shake256 h := C01_height hashOf shake256 h hc h4 heven h30
+
+end
+
+/-- WOTS part in isolation: for every hash function, seed, index and 32-byte digest -/
 theorem wots_verifies (hash : Bytes → Bytes) (msgHash seed pubSeed : Bytes) (idx : Nat) (hlen : msgHash.length = 32) :
     ∃ sig, wotsSign hash wp16 msgHash seed pubSeed idx = .ok sig ∧
       wotsPKFromSig hash wp16 sig msgHash pubSeed idx = .ok (wotsPKGen hash wp16 seed pubSeed idx) := by
   obtain ⟨sig, h1, _, h3⟩ := wots_pk_from_sig hash wp16 (Or.inl rfl) msgHash seed pubSeed idx hlen
   exact ⟨sig, h1, h3⟩
 
-/-- every history of Sign / forward SetIndex calls reaches the state `keyAt i` (from C08): the signature
-emitted at index `i` is therefore the same whatever the history -/
-theorem history_irrelevant (hashOf : Nat → Bytes → Bytes) (hlen : C02.HashLen hashOf) (k0 : Key) (h30 : k0.h ≤ 30) (h1 : 1 ≤ k0.h)
-    (ops : List C02.Op) (hops : ∀ op ∈ ops, C02.opOK op) :
-    (C02.run hashOf (C08.keyAt hashOf k0 0) ops).1 = C08.keyAt hashOf k0 (C02.specRun k0.h 0 ops).1 :=
-  C08.history_state hashOf hlen k0 h30 h1 ops 0 (Nat.zero_le _) hops
+-- non-vacuity: the descriptor hypotheses are those of every key the library builds
+example : (⟨1, 0, 10, 0⟩ : Desc).sigType = 0 ∧ supportedHash (⟨1, 0, 10, 0⟩ : Desc).hashFn = true := by decide
 
 end Qrl.Xmss.C01
